@@ -85,6 +85,34 @@ CLAIMED["C03"] = dict(
     technique="Lean 4 theorem (stream_source refines flat source, all chunk sizes) + correspondence + all-deliveries-agree oracle",
     design="§5 C03")
 
+CLAIMED["C06"] = dict(
+    text="Lean 4 proof that the CBOR encoder model (byte-exact tie to encode_cbor on every run) writes, for every value of the data-model core "
+         "(null, bool, all int64/uint64, doubles incl. the float32-when-exact shortcut, UTF-8 text, byte strings, arrays, maps, any nesting), bytes "
+         "that the RFC 8949 reference decoder reads back as exactly that value; all width boundaries are inside the case split. Tags, string "
+         "packing, typed arrays and the MessagePack/UBJSON/BSON round trips under their documented mappings are decided per case on the real code "
+         "(boundary-directed values, stringref threshold documents, every length boundary).",
+    note="Partial: only CBOR's core is proved; doubles in the binary32-subnormal exponent band carry the side condition DoubleOK (checked per case). "
+         "Other formats and all tag handling are validated by differential round-trip testing. D26 (stringref vs bignums) found and fixed.",
+    technique="Lean 4 theorem (CBOR encode/decode round trip on the core) + byte-exact correspondence + round-trip oracle",
+    design="§5 C06")
+CLAIMED["C07"] = dict(
+    text="The real CBOR, MessagePack, UBJSON and BSON decoders are compared on every run with reference decoders written in Lean 4 from the "
+         "specifications, on outputs of independent reference encoders in every legal width and form, mutations, every strict prefix and every 1-2 "
+         "(thorough: sampled 3) byte string. Proved about the CBOR reference: integers of all five widths and both majors are read back exactly from "
+         "the encoder model's head, reserved additional information 28-31 and truncated heads are ill-formed for every continuation.",
+    note="Partial: the decoders themselves are not modelled; assurance = differential testing against a Lean reference. Renderings that are jsoncons' own "
+         "choice (tags 4/5, typed arrays, stringref, ext types, non-text keys) are 'unjudged' by the reference. D4, D5 fixed; D24, D25 (BSON leniencies) listed.",
+    technique="Lean 4 reference decoders (theorems about the CBOR reference) + differential testing of the real decoders",
+    design="§5 C07")
+CLAIMED["C08"] = dict(
+    text="Lean 4 proof about the encoders' container-length bookkeeping (model of cbor_encoder.hpp's stack): event sequences whose announced lengths "
+         "are exact are accepted at any nesting, wrong announcements are refused with too_few/too_many; with C06's round trip this gives well-formed, "
+         "faithful CBOR on the core. All four binary encoders and both JSON encoders on generated event sequences, MessagePack timestamps and "
+         "transcoding between every pair of formats are decided per case, outputs judged by the Lean reference decoders / RFC 8259 parser.",
+    note="Partial: proof covers the length bookkeeping and (via C06) CBOR core bytes; other encoders validated by differential testing. D27, D28 fixed; D13 listed.",
+    technique="Lean 4 theorems (length bookkeeping; CBOR output denotes input) + outputs judged by Lean reference decoders",
+    design="§5 C08")
+
 ALL = ["C%02d" % i for i in range(1, 21)]
 NOT_YET = "not claimed yet: the Lean model, theorems and correspondence harness for this property are still being built (see DESIGN.md §8 staging)"
 
